@@ -83,7 +83,7 @@ class Prop:
         # graded spectra at small / large overall magnitude: the default tolerance is relative, so every component
         # far above 1e-14 relative must survive rounding whatever the scale of the data (compared relatively)
         ROUND_OPS = ["round_tt", "round_tucker", "round", "tn_round_tt", "tn_round_tucker", "tn_round"]
-        for scale in (1.0, 1e-6, 1e-10, 1e-12, 1e8):
+        for scale in (1.0, 1e-6, 1e-10, 1e-12, 1e-15, 1e-20, 1e8):
             for rep in range(2 if quick else 8):
                 N = rng.choice([2, 3])
                 shape = [rng.choice([4, 5, 6]) for _ in range(N)]
